@@ -171,6 +171,16 @@ func genC19Case(r *rand.Rand, idx int64) *c19Case {
 		lastNames[f] = nn
 		if opl {
 			lastContent[f] = c19OPL(nn, fmt.Sprintf("r%d", k))
+			if r.IntN(6) == 0 && c.Write == "atomic" {
+				// (atomic writes only: a reader of an in-place write may see any prefix)
+				// a LARGE valid version (70-200 KiB): a comment block of that size before
+				// the last class, so that every prefix shorter than the file is another
+				// (smaller or class-less) valid document
+				pad := strings.Repeat("// generated padding line, nothing to see here\n", (70<<10)/48+r.IntN((130<<10)/48))
+				if i := strings.LastIndex(lastContent[f], "class "); i >= 0 {
+					lastContent[f] = lastContent[f][:i] + pad + lastContent[f][i:]
+				}
+			}
 		} else {
 			lastContent[f] = c19Legacy(filepath.Ext(c.Files[f]), nn[0], k)
 		}
